@@ -24,6 +24,14 @@ CHECKS = {
        'tree with symbolic min/max/value. Exhausted cells and budget-limited cells are listed separately.',
   design_ref='DESIGN.md §4 C18',
   technique='CrossHair symbolic execution of real code + z3 (unbounded ints, symbolic strings), reference calendar oracle, replay'),
+ 'C08': dict(
+  text='Symbolic execution of every API entry point of the real matcher: min/max/value/dir/lang/type/name/placeholder '
+       'strings are symbolic (solver-chosen content, bounded length) on concrete parser-built skeletons; the selector x '
+       'document x call-target product (every pseudo-class of the live tables, 8 documents incl. XML/XHTML/multi-root/'
+       'empty, detached fragments, odd attribute values) is a bounded enumeration steered by the solver and is exhausted. '
+       'The only failure mode is an exception or non-termination.',
+  design_ref='DESIGN.md §4 C08',
+  technique='CrossHair symbolic execution of real code + z3 (symbolic attribute strings), exception-freedom contract, replay'),
 }
 
 NOT_APPLICABLE = {
